@@ -547,7 +547,7 @@ func (env *SpecEnv) call(x *SCall) Val {
 				e2 := *v.S.Elem
 				e2.Go = elemGoType(v.Go)
 				ss.Elem = &e2
-				return Val{T: sSel(ex.mem(env.st, v.S.Elem), fmt.Sprintf("(s_arr %s)", v.T)), S: &ss}
+				return Val{T: sSel(ex.heapGet(env.st, ex.memKey(v.S.Elem), ex.w.memSort(v.S.Elem), elemGoType(v.Go)), fmt.Sprintf("(s_arr %s)", v.T)), S: &ss}
 			case "arr":
 				v := env.eval(x.Args[0])
 				return Val{T: fmt.Sprintf("(s_arr %s)", v.T), S: sArrId}
@@ -1083,9 +1083,11 @@ func (ex *Exec) frameCond(pre, post *State, key string, s *Sort, targets []modTa
 	}
 	idxSort := "Ref"
 	allocA := ex.allocArr(pre)
+	allocB := ex.allocArr(post)
 	if s.Idx == sArrId || s.Idx.Kind == KArrId {
 		idxSort = "ArrId"
 		allocA = ex.arrAllocArr(pre)
+		allocB = ex.arrAllocArr(post)
 	}
 	var excl []string
 	for _, t := range targets {
@@ -1096,7 +1098,11 @@ func (ex *Exec) frameCond(pre, post *State, key string, s *Sort, targets []modTa
 			excl = append(excl, sNot(sEq("r", t.obj)))
 		}
 	}
+	// everything except the targets and the objects allocated in between keeps its value
 	guard := sSel(allocA, "r")
+	if allocA != allocB {
+		guard = sOr(sSel(allocA, "r"), sNot(sSel(allocB, "r")))
+	}
 	if idxSort == "ArrId" {
 		// backing arrays of array-typed fields exist whenever their owner does
 		for _, fn := range ex.w.arrOfFns {
